@@ -245,7 +245,7 @@ def run(ctx):
     res = run_cfg(ctx, "summaries", cfg_text(["align", "rank", "scatter"], maxlen=3, maxseqs=3 if q else 4, maxrank=4 if q else 5, maxpoints=4))
     n = 0
     nlogo = 0
-    for doc in res.printed:
+    for doc in ctx.sample([d for d in res.printed if d.get("kind")], 40000):
         k = doc.get("kind")
         if not k:
             continue
